@@ -387,7 +387,35 @@ def run(ctx, tier):
                 'arguments the Python object and the core diverge' % b.name, loc=b.loc(bad[0])))
     if n_fw < 15:
         r_fwd.violations.append(Violation('C19', 'C19.forward', 'oxmpl-py', 'floor', 'only %d same-named delegations found (floor 15)' % n_fw))
-    return [r_args, r_disp, r_loss, r_err, r_seed, r_sib, r_fwd]
+    # ---------------------------------------------------------------- callbacks
+    # The user's callbacks (goal test / distance / sampler, validity checker) and the spaces' samplers are invoked by the core,
+    # at the points and in the number the core decides.  A planner wrapper that calls one itself ("check that the goal can be
+    # sampled before setup") makes one more observable invocation than the core: a stateful sampler or a counting checker
+    # sees a shifted sequence and the Python result is no longer the core's.
+    r_cb = RuleResult('C19.callbacks', 'planner wrappers never invoke the problem\'s callbacks or a sampler themselves: only the core does')
+    CB = ('::Goal::is_satisfied', '::GoalRegion::distance_goal', '::GoalSampleableRegion::sample_goal',
+          '::StateValidityChecker::is_valid', '::StateSpace::sample_uniform')
+    n_pw = 0
+    for crate in [c for c in (ctx.py, ctx.js) if c is not None]:
+        for b in user_bodies(crate):
+            if '::geometric::' not in '::' + b.path and not b.path.startswith('geometric::'):
+                continue
+            n_pw += 1
+            hits = []
+            for f in reach_refs(crate, b):
+                pth = f.get('path', '') or ''
+                if pth.endswith(CB):
+                    hits.append(pth)
+            r_cb.inst('%s makes no callback / sampler call of its own' % b.path, ok=not hits, site=b.loc(0), nontrivial=False)
+            for o, h in enumerate(sorted(set(hits))):
+                r_cb.violations.append(Violation(
+                    'C19', 'C19.callbacks', b.path, h.rsplit('::', 1)[1],
+                    'the planner wrapper calls %s itself (directly or through a helper of the binding crate): one more invocation of the '
+                    "user's callback / of the generator than the core makes - a stateful sampler or checker sees a shifted sequence and "
+                    'the result differs from the core\'s' % h, loc=b.loc(0), ordinal=o))
+    if n_pw < 20:
+        r_cb.violations.append(Violation('C19', 'C19.callbacks', 'oxmpl-py', 'floor', 'only %d planner wrapper functions found (floor 20)' % n_pw))
+    return [r_args, r_disp, r_loss, r_err, r_seed, r_sib, r_fwd, r_cb]
 
 
 def _lossless(b):
